@@ -206,7 +206,7 @@ func (p *Profile) genOpKind(t *rapid.T, kind string, gs *genState, depth int) Op
 		o.WV = rapid.Bool().Draw(t, "wv")
 	case OpBadSet:
 		coll()
-		o.Flag = uni(t, 5, "bad")
+		o.Flag = uni(t, 8, "bad")
 		o.Prio = int32(rapid.IntRange(0, 5).Draw(t, "neg"))
 	case OpMin, OpMax:
 		coll()
